@@ -1271,7 +1271,9 @@ func (d *descendantOverDescendantQuery) Select(t iterator) NodeNavigator {
 				d.posit = 1
 				return d.currentNode
 			}
-			d.moveToFirstChild()
+			if !d.moveToFirstChild() {
+				continue
+			}
 		} else if !d.moveUpUntilNext() {
 			continue
 		}
